@@ -13,7 +13,9 @@ CHECKS = {
  "C01": ("Coq theorems C01_roundtrip / C01_deterministic_idempotent / C01_decode_encode: for every well-formed bundle (any number of blocks, any CRC state, "
          "all EID kinds, full-range integers) decode(encode b) is the bundle with its freshly stored CRCs, nothing but CRC values changes, and a second "
          "encoding is identical — proved by induction over the block list on a stream-parser model of serde_cbor and transcriptions of bp7's serde impls; "
-         "model tied to /repo by differential execution (RT channel) incl. 22-25 and 300-block bundles.",
+         "model tied to /repo by differential execution (RT channel) incl. 22-25 and 300-block bundles; every RT line also asks the crate's other public "
+         "routes for the same step (try_from(Vec<u8>), serde_cbor::from_slice / from_reader, serde's Serialize for Bundle) and fails when one of them "
+         "disagrees with try_from(&[u8]) / to_cbor.",
          "serde_cbor/serde/serde_bytes behaviour is modelled, not verified; Duration lifetimes whole ms < 2^64.", "DESIGN.md section 6 C01"),
  "C02": ("Coq theorem C02_wire_format: the model encoder's bytes equal the generic shortest-form serialization of the RFC 9171 section 4 item tree "
          "(Spec/Rfc9171.v, CRCs by the bitwise catalogue CRC) for every well-formed bundle; spec pinned to RFC 9173 A.1 / golden vectors; implementation "
@@ -36,7 +38,9 @@ CHECKS = {
          "C05_no_crc_passes; algebra C05_crc16/crc32c_detects_window without enumeration. C05_full (window class without the premise) is REFUTED "
          "(C05_full_refuted): a concrete CRC-16 payload block that a two-byte window turns into a valid CRC-32C block of the same length - a "
          "property of the BPv7 wire format, reproduced on the implementation (corpus line, counted, not judged). K-corrupt channel: every bit flip, "
-         "every window start with boundary/exhaustive patterns and CRC overwrites per block, model vs implementation, oracle = the alarm condition.",
+         "every window start with boundary/exhaustive patterns and CRC overwrites per block, model vs implementation, oracle = the alarm condition; "
+         "REENC lines: a received bundle (correct or overwritten CRC values) gets a new payload and lifetime and is sent on - what to_cbor emits must "
+         "pass the check in memory and after decoding (instance of C05_uncorrupted_passes, which holds for every stored CRC state).",
          "window class: same decoded CRC type (necessary, see C05_full_refuted); windows straddling content and CRC value are outside the property; "
          "as C01 for serde.", "DESIGN.md section 6 C05"),
  "C06": ("Coq theorems C06_decode_total (for EVERY byte string the decoder model returns Ok or Err, never Panic — by inversion of the stream parser through all "
@@ -72,7 +76,9 @@ CHECKS = {
  "C09": ("Coq theorems C09_unique / C09_unique_from / C09_complete / C09_sequential*: NoDup of returned (time, seq) pairs for every number of threads, calls, "
          "clock readings and every interleaving of the instrumented operations (invariant over the schedule), plus the non-overlapping clause; "
          "C09_pinned_refuted keeps the two-atomics defect machine-checked; model tied to the real now() by running model schedules on OS threads "
-         "stepped through the cfg(bp7_verif) scheduler hook, one fresh process per case.",
+         "stepped through the cfg(bp7_verif) scheduler hook, one fresh process per case; the same schedules through every other public entry point that "
+         "stamps a bundle (SCHEDX: new_std_payload_bundle, new_status_report_bundle, ffi bundle_new_default; SCHEDR: helpers::rnd_bundle(now()) and ffi "
+         "helper_rnd_bundle, two draws per call, uniqueness only), a ticking clock (SCHEDT) and the free-running 16-thread stress (STRESS).",
          "sequential consistency of the instrumented operations (weak-memory reorderings outside the model); std::sync::Mutex.", "DESIGN.md section 6 C09"),
  "C10": ("Coq theorems C10_print_parse / C10_cbor_roundtrip / C10_accepts_canonical / C10_rejects / C10_node_id / C10_new_endpoint / C10_api_image / "
          "C10_total over a line-by-line transcription of eid.rs (Display, TryFrom<&str>, with_dtn, with_ipn, new_endpoint, node, node_id, service_name, "
@@ -101,7 +107,7 @@ CHECKS = {
 "round-trips (via C01, and via C11_roundtrip_unknown_crc on the domain extended to unknown CRC types, wf_bundle_u); proved by one preservation lemma per mutator (C11_step) and induction over the operation list; C11_start / "
 "C11_builder_build / C11_std_bundle show the builders establish the start state. K-ops channel: all operation-kind sequences <= 3 (thorough 4) "
 "over 15 kinds with boundary arguments + random sequences <= 8 in debug and release builds, Inv evaluated by an independent Python oracle on "
-"the implementation's bundle after every step. Public constructors and builders (Model/Api.v, Proofs/ApiProofs.v): C11_bundle_builder / "
+"the implementation's bundle after every step; the final CBOR round trip goes through every public encode / decode route. Public constructors and builders (Model/Api.v, Proofs/ApiProofs.v): C11_bundle_builder / "
 "C11_from_builder (BundleBuilder with primary/canonicals/payload each optional = builder_build with the payload block pushed last; what it returns, "
 "once valid and well formed, keeps the invariant under every admissible sequence), C11_builder_payload_last, C11_constructors_admissible / "
 "C11_constructors_valid (every new_*_block call with in-range arguments is an admissible argument and passes extension validation), "
@@ -132,7 +138,7 @@ CHECKS = {
          "dtn://n/a-5 (1,2) vs fragment dtn://n/a (5,1) offset 2), C13_fragment_collides / C13_known_none_name_narrow (the classes are tight), "
          "C13_refbundle (a status report about a non-fragment bundle prints the bundle's ID), C13_received_report_refers (a normal-form status "
          "report about a bundle - fragment or not - that went over the wire prints, after decoding, exactly that bundle's ID: composition with the "
-         "C12 record round trip); K-id channel: SRREF (reports decoded from reference encodings) and SRREFE (the same after one pass through the crate's record encoder), adversarial re-splittings of one ID "
+         "C12 record round trip); K-id channel: SRREF (reports decoded from reference encodings) and SRREFE (the same after one pass through the crate's record encoder), IDPAIR bundles built a second time through PrimaryBlockBuilder (same ID required), adversarial re-splittings of one ID "
          "text, single-field perturbations inside/outside the identity, random pairs, status-report references; failing pairs are classified by "
          "the same decidable predicate (known findings id-dash-source, id-none-name).",
          "Display for u64/EndpointID and format! are modelled; new_status_report on a fragment is unimplemented!() in the crate (not judged).",
